@@ -970,7 +970,8 @@ func (v *Validator) unsafeOptionalAccessError(env *requestEnv, t cedarType, attr
 		fullPath := string(attr)
 		if varName != "" && varName != "context" {
 			// nested path like context.session.token
-			fullPath = string(varName)[len("context."):] + "." + string(attr)
+			// (the chain may also be rooted in principal, resource or action: only a context prefix is cut)
+			fullPath = strings.TrimPrefix(string(varName), "context.") + "." + string(attr)
 		}
 		return fmt.Errorf("unable to guarantee safety of access to optional attribute `%s` in context for %s", fullPath, env.actionUID)
 	}
